@@ -221,12 +221,65 @@ func (fx *FnExec) frameObligations(st *State, fr *frame, env *evalEnv, retName s
 // frameCheck: every heap variable changed since the snapshot `initHeap` agrees
 // with it on all objects that existed then (<= allocBound), except at the
 // locations named by `modifies` (evaluated in the snapshot state).
+type frameAllow struct {
+	whole bool
+	idx   []Term
+}
+
 func (fx *FnExec) frameCheck(st *State, fr *frame, env *evalEnv, retName string, modifies []Expr, initHeap map[string]Term, allocBound Term, kind string) {
-	// allowed modification points per heap variable (evaluated in the entry state)
-	type allow struct {
-		whole bool
-		idx   []Term
+	allowed := fx.frameAllowed(env, modifies, initHeap)
+	for _, name := range sortedTermKeys(st.heap) {
+		if f, ok := fx.frameFormula(st, name, st.heap[name], allowed, initHeap, allocBound); ok {
+			fx.emit(st, fr, kind, name+"@"+retName, f, nil, "")
+		}
 	}
+}
+
+// frameFormula: `cur` agrees with the snapshot value of heap variable `name`
+// on everything that existed at the snapshot, outside the allowed locations.
+func (fx *FnExec) frameFormula(st *State, name string, cur Term, allowed map[string]*frameAllow, initHeap map[string]Term, allocBound Term) (Term, bool) {
+	srt := fx.heapSorts[name]
+	init := initHeap[name]
+	if init == "" {
+		init = sanitize(name) + "@0"
+	}
+	if cur == init {
+		return "", false
+	}
+	if strings.HasPrefix(name, "ghost.chan") {
+		// channel ghost state follows Go's channel semantics, not a frame
+		return "", false
+	}
+	a := allowed[name]
+	if a != nil && a.whole {
+		return "", false
+	}
+	if !strings.HasPrefix(srt, "(Array ") {
+		return "(= " + cur + " " + init + ")", true
+	}
+	isrt := arrayIndexSort(srt)
+	var conds []string
+	if isrt == "Int" {
+		conds = append(conds, "(<= q.f "+allocBound+")")
+	}
+	if a != nil {
+		for _, ix := range a.idx {
+			conds = append(conds, "(not (= q.f "+ix+"))")
+		}
+	}
+	body := "(= (select " + cur + " q.f) (select " + init + " q.f))"
+	if len(conds) > 0 {
+		body = "(=> (and " + strings.Join(conds, " ") + ") " + body + ")"
+	}
+	if !strings.ContainsAny(cur, "( ") {
+		return "(forall ((q.f " + isrt + ")) (! " + body + " :pattern ((select " + cur + " q.f))))", true
+	}
+	return "(forall ((q.f " + isrt + ")) " + body + ")", true
+}
+
+// frameAllowed: the locations a modifies list permits, evaluated in the snapshot state.
+func (fx *FnExec) frameAllowed(env *evalEnv, modifies []Expr, initHeap map[string]Term) map[string]*frameAllow {
+	type allow = frameAllow
 	allowed := map[string]*allow{}
 	pre := *env
 	pre.old = initHeap
@@ -297,44 +350,7 @@ func (fx *FnExec) frameCheck(st *State, fr *frame, env *evalEnv, retName string,
 			}
 		}
 	}
-	for _, name := range sortedTermKeys(st.heap) {
-		cur := st.heap[name]
-		srt := fx.heapSorts[name]
-		init := initHeap[name]
-		if init == "" {
-			init = sanitize(name) + "@0"
-		}
-		if cur == init {
-			continue
-		}
-		if strings.HasPrefix(name, "ghost.chan") {
-			// channel ghost state follows Go's channel semantics, not a frame
-			continue
-		}
-		a := allowed[name]
-		if a != nil && a.whole {
-			continue
-		}
-		if !strings.HasPrefix(srt, "(Array ") {
-			fx.emit(st, fr, kind, name+"@"+retName, "(= "+cur+" "+init+")", nil, "")
-			continue
-		}
-		isrt := arrayIndexSort(srt)
-		var conds []string
-		if isrt == "Int" {
-			conds = append(conds, "(<= q.f "+allocBound+")")
-		}
-		if a != nil {
-			for _, ix := range a.idx {
-				conds = append(conds, "(not (= q.f "+ix+"))")
-			}
-		}
-		body := "(= (select " + cur + " q.f) (select " + init + " q.f))"
-		if len(conds) > 0 {
-			body = "(=> (and " + strings.Join(conds, " ") + ") " + body + ")"
-		}
-		fx.emit(st, fr, kind, name+"@"+retName, "(forall ((q.f "+isrt+")) "+body+")", nil, "")
-	}
+	return allowed
 }
 
 // ---- query assembly and solving ----
